@@ -29,29 +29,38 @@ type atomOp struct {
 	// extra = how many times an inner effect on the *other* atom may have happened (>=1).
 	spec  func(s atomSt, c int, extra int) (atomSt, string)
 	inner bool // has an effect on the other atom that a retrying implementation may repeat
+	// mayFail: the operation runs under the scenario's cancellable caller context and may instead
+	// return an error (timeout) without any effect
+	mayFail bool
+	harness func(st *c09state) int // harness-level operation (not lisp)
 }
 
 func iv(i int) string { return fmt.Sprint(i) }
 
 var atomOps = []atomOp{
-	{"deref", func(c int) string { return "@a" }, func(s atomSt, c, k int) (atomSt, string) { return s, iv(s.a) }, false},
-	{"reset!", func(c int) string { return fmt.Sprintf("(reset! a %d)", c) }, func(s atomSt, c, k int) (atomSt, string) { s.a = c; return s, iv(c) }, false},
-	{"swap!-inc", func(c int) string { return "(swap! a inc)" }, func(s atomSt, c, k int) (atomSt, string) { s.a++; return s, iv(s.a) }, false},
-	{"swap!-plus", func(c int) string { return "(swap! a + 2)" }, func(s atomSt, c, k int) (atomSt, string) { s.a += 2; return s, iv(s.a) }, false},
-	{"swap!-failing-fn", func(c int) string { return "(swap! a failing)" }, func(s atomSt, c, k int) (atomSt, string) { return s, "error" }, false},
-	{"swap!-reads-itself", func(c int) string { return "(swap! a (fn [x] (+ x @a)))" }, func(s atomSt, c, k int) (atomSt, string) { s.a += s.a; return s, iv(s.a) }, false},
-	{"swap!-reads-b", func(c int) string { return "(swap! a (fn [x] (+ x @b)))" }, func(s atomSt, c, k int) (atomSt, string) { s.a += s.b; return s, iv(s.a) }, false},
-	{"swap!-a-updates-b", func(c int) string { return fmt.Sprintf("(swap! a (fn [x] (t! %d) (swap! b inc) x))", c) }, func(s atomSt, c, k int) (atomSt, string) { s.b += k; return s, iv(s.a) }, true},
-	{"pr-str", func(c int) string { return "(pr-str a)" }, func(s atomSt, c, k int) (atomSt, string) { return s, fmt.Sprintf("%q", "«atom "+iv(s.a)+"»") }, false},
-	{"swap!-b-updates-a", func(c int) string { return fmt.Sprintf("(swap! b (fn [x] (t! %d) (swap! a inc) x))", c) }, func(s atomSt, c, k int) (atomSt, string) { s.a += k; return s, iv(s.b) }, true},
-	{"deref-b", func(c int) string { return "@b" }, func(s atomSt, c, k int) (atomSt, string) { return s, iv(s.b) }, false},
+	{"deref", func(c int) string { return "@a" }, func(s atomSt, c, k int) (atomSt, string) { return s, iv(s.a) }, false, false, nil},
+	{"reset!", func(c int) string { return fmt.Sprintf("(reset! a %d)", c) }, func(s atomSt, c, k int) (atomSt, string) { s.a = c; return s, iv(c) }, false, false, nil},
+	{"swap!-inc", func(c int) string { return "(swap! a inc)" }, func(s atomSt, c, k int) (atomSt, string) { s.a++; return s, iv(s.a) }, false, false, nil},
+	{"swap!-plus", func(c int) string { return "(swap! a + 2)" }, func(s atomSt, c, k int) (atomSt, string) { s.a += 2; return s, iv(s.a) }, false, false, nil},
+	{"swap!-failing-fn", func(c int) string { return "(swap! a failing)" }, func(s atomSt, c, k int) (atomSt, string) { return s, "error" }, false, false, nil},
+	{"swap!-reads-itself", func(c int) string { return "(swap! a (fn [x] (+ x @a)))" }, func(s atomSt, c, k int) (atomSt, string) { s.a += s.a; return s, iv(s.a) }, false, false, nil},
+	{"swap!-reads-b", func(c int) string { return "(swap! a (fn [x] (+ x @b)))" }, func(s atomSt, c, k int) (atomSt, string) { s.a += s.b; return s, iv(s.a) }, false, false, nil},
+	{"swap!-a-updates-b", func(c int) string { return fmt.Sprintf("(swap! a (fn [x] (t! %d) (swap! b inc) x))", c) }, func(s atomSt, c, k int) (atomSt, string) { s.b += k; return s, iv(s.a) }, true, false, nil},
+	{"pr-str", func(c int) string { return "(pr-str a)" }, func(s atomSt, c, k int) (atomSt, string) { return s, fmt.Sprintf("%q", "«atom "+iv(s.a)+"»") }, false, false, nil},
+	{"swap!-b-updates-a", func(c int) string { return fmt.Sprintf("(swap! b (fn [x] (t! %d) (swap! a inc) x))", c) }, func(s atomSt, c, k int) (atomSt, string) { s.a += k; return s, iv(s.b) }, true, false, nil},
+	{"deref-b", func(c int) string { return "@b" }, func(s atomSt, c, k int) (atomSt, string) { return s, iv(s.b) }, false, false, nil},
 	// an update function that keeps its rest-argument list (stores it in atom k): what it kept
 	// must stay what it was, whatever swap! does with its argument vector afterwards
-	{"swap!-keeps-rest-args", func(c int) string { return fmt.Sprintf("(swap! a (fn [x & more] (t! %d) (reset! k more) x) %d)", c, c) }, func(s atomSt, c, k int) (atomSt, string) { return s, iv(s.a) }, true},
+	{"swap!-keeps-rest-args", func(c int) string { return fmt.Sprintf("(swap! a (fn [x & more] (t! %d) (reset! k more) x) %d)", c, c) }, func(s atomSt, c, k int) (atomSt, string) { return s, iv(s.a) }, true, false, nil},
 	// the update function is a Go builtin that calls a lisp function back (like update, apply, map do),
 	// and that callback reads the atom being swapped
-	{"swap!-builtin-calling-back", func(c int) string { return "(swap! a callf (fn [x] (+ x @a)))" }, func(s atomSt, c, k int) (atomSt, string) { s.a += s.a; return s, iv(s.a) }, false},
-	{"first-of-k", func(c int) string { return "(first @k)" }, func(s atomSt, c, k int) (atomSt, string) { return s, iv(s.k) }, false},
+	{"swap!-builtin-calling-back", func(c int) string { return "(swap! a callf (fn [x] (+ x @a)))" }, func(s atomSt, c, k int) (atomSt, string) { s.a += s.a; return s, iv(s.a) }, false, false, nil},
+	// a swap! evaluated under a caller context that another thread ends: it either takes effect or
+	// returns a timeout error without effect, and leaves the atom usable either way
+	{name: "swap!-inc-under-caller-context", text: func(c int) string { return "(swap! a inc)" }, spec: func(s atomSt, c, k int) (atomSt, string) { s.a++; return s, iv(s.a) }, mayFail: true},
+	{name: "end-caller-context", text: func(c int) string { return "<the caller context ends>" }, spec: func(s atomSt, c, k int) (atomSt, string) { return s, "0" },
+		harness: func(st *c09state) int { st.cancel(); return 0 }},
+	{"first-of-k", func(c int) string { return "(first @k)" }, func(s atomSt, c, k int) (atomSt, string) { return s, iv(s.k) }, false, false, nil},
 }
 
 type histOp struct {
@@ -65,6 +74,8 @@ type c09state struct {
 	inner   map[int]int // op constant -> how many times its update function ran
 	scope   types.EnvType
 	a, b, k *concurrent.Atom
+	cctx    context.Context // caller context of the operations that may fail
+	cancel  context.CancelFunc
 	clock   int
 	hist    []*histOp
 	plan    [][]int
@@ -176,7 +187,9 @@ func linSearch(ev []linEvent, finalA, finalB, finalK int) bool {
 			default:
 				var r string
 				ns, r = atomOps[ev[i].op].spec(st, ev[i].c, 0)
-				if r != ev[i].result {
+				if atomOps[ev[i].op].mayFail && ev[i].result == "error" {
+					ns = st // failed under its ended context: no effect
+				} else if r != ev[i].result {
 					continue
 				}
 			}
@@ -233,6 +246,21 @@ func init() {
 					add([][]int{{i}, {w, w, w}})
 				}
 			}
+			// an operation under the caller context against a thread that writes, ends that context and then
+			// uses the atom again (an operation that fails must leave the atom usable)
+			idx := func(name string) int {
+				for k, o := range atomOps {
+					if o.name == name {
+						return k
+					}
+				}
+				panic("c09: no op " + name)
+			}
+			for _, w := range []int{1, 2} {
+				for _, rd := range []string{"deref", "reset!", "swap!-inc", "pr-str"} {
+					add([][]int{{idx("swap!-inc-under-caller-context")}, {w, idx("end-caller-context"), idx(rd)}})
+				}
+			}
 			for i := 0; i < n; i++ {
 				for j := i; j < n; j++ {
 					add([][]int{{i}, {j}})
@@ -265,7 +293,11 @@ func init() {
 			for ti, t := range p {
 				var os []string
 				for k, o := range t {
-					os = append(os, atomOps[o].text(10*(ti+1)+k))
+					t := atomOps[o].text(10*(ti+1) + k)
+					if atomOps[o].mayFail {
+						t += " [under the caller context]"
+					}
+					os = append(os, t)
 				}
 				ts = append(ts, fmt.Sprintf("T%d: %s", ti, strings.Join(os, " ")))
 			}
@@ -279,6 +311,7 @@ func init() {
 					st := &c09state{plan: plan}
 					tracer.Reset()
 					st.scope = env.NewSubordinateEnv(base)
+					st.cctx, st.cancel = context.WithCancel(context.Background())
 					st.a, st.b = &concurrent.Atom{Val: 1}, &concurrent.Atom{Val: 1}
 					st.scope.Set(types.Symbol{Val: "a"}, st.a)
 					st.scope.Set(types.Symbol{Val: "b"}, st.b)
@@ -309,7 +342,17 @@ func init() {
 								}
 								st.clock++
 								h.inv = st.clock
-								res, err, p := lx.Eval(context.Background(), lx.MustRead(atomOps[o].text(c)), st.scope)
+								var res types.MalType
+								var err error
+								var p *lx.Panic
+								switch {
+								case atomOps[o].harness != nil:
+									res = atomOps[o].harness(st)
+								case atomOps[o].mayFail:
+									res, err, p = lx.Eval(st.cctx, lx.MustRead(atomOps[o].text(c)), st.scope)
+								default:
+									res, err, p = lx.Eval(context.Background(), lx.MustRead(atomOps[o].text(c)), st.scope)
+								}
 								st.clock++
 								h.ret = st.clock
 								h.done = true
@@ -391,7 +434,7 @@ func init() {
 		}
 		fam := &vf.Family{
 			Name:     "atom-scenarios",
-			Bounds:   fmt.Sprintf("all multisets of 2 threads x 1 op, 3 threads x 1 op, one op against a thread issuing three writes (bound 3; switching at the boundary between two operations of a thread is a free yield, not a preemption), (2 ops || 1 op) and, thorough, (2 ops || 2 ops) over %d atom operations on atoms a, b (and k, which holds what an update function kept of its rest arguments); per scenario all interleavings at lock operations and hook points of lib/concurrent up to preemption bound 2 (quick) / 3 (thorough), capped at 20000 (quick) / 200000 (thorough) executions per scenario", len(atomOps)),
+			Bounds:   fmt.Sprintf("all multisets of 2 threads x 1 op, 3 threads x 1 op, one op against a thread issuing three writes, a swap! under the caller context against a thread that writes, ends that context and uses the atom again (bound 3; switching at the boundary between two operations of a thread is a free yield, not a preemption), (2 ops || 1 op) and, thorough, (2 ops || 2 ops) over %d atom operations (incl. a swap! under a caller context that another thread ends) on atoms a, b (and k, which holds what an update function kept of its rest arguments); per scenario all interleavings at lock operations and hook points of lib/concurrent up to preemption bound 2 (quick) / 3 (thorough), capped at 20000 (quick) / 200000 (thorough) executions per scenario", len(atomOps)),
 			Setup:    setup,
 			Timeout:  120 * time.Second,
 			N:        func(t string) int64 { tier = t; return int64(len(plansOf())) },
